@@ -30,7 +30,7 @@ DeepKey(ty, pattern) == ty \o "/" \o pattern
 DeepTrack(ty, pattern) ==
   IF DeepKey(ty, pattern) \in DOMAIN deep THEN deep[DeepKey(ty, pattern)] ELSE [maxok |-> 0, minrej |-> -1]
 
-CallEvents == {"Size", "Encode", "Decode", "Deep", "Reject", "Legacy", "Allocs", "Par", "Walk", "Recheck", "Hooks", "Reg", "Gated"}
+CallEvents == {"Size", "Encode", "Decode", "Deep", "Reject", "Legacy", "Allocs", "Par", "Walk", "Recheck", "Hooks", "Reg", "Gated", "Scale", "Repeat"}
 
 \* rejected calls seen so far in the whole trace: (type, entry, argument kind) -> outcome
 RejKey == Line.ty \o "/" \o Line.entry \o "/" \o Line.arg
@@ -41,7 +41,7 @@ RejKey == Line.ty \o "/" \o Line.entry \o "/" \o Line.arg
 \* the kind of step only
 CrashClause(ev) ==
   CASE ev = "Size" -> "size_ok" [] ev = "Encode" -> "enc_ok" [] ev = "Decode" -> "dec_nocrash"
-    [] ev = "Deep" -> "deep_nocrash" [] ev = "Reject" -> "rej_nofault" [] ev = "Legacy" -> "legacy_ok"
+    [] ev \in {"Scale", "Repeat"} -> "dec_nocrash" [] ev = "Deep" -> "deep_nocrash" [] ev = "Reject" -> "rej_nofault" [] ev = "Legacy" -> "legacy_ok"
     [] ev = "Allocs" -> "alloc_ok" [] ev \in {"Par", "Gated"} -> (IF Line.obs.out = "race" THEN "par_norace" ELSE "par_nocrash")
     [] OTHER -> "mem_crash"       \* walking / re-reading a kept decoded object killed the process
 
@@ -65,6 +65,8 @@ Judge ==
     [] Line.ev = "Hooks" -> JHooks(Line, spans)
     [] Line.ev = "Reg" -> JReg(Line, regst)
     [] Line.ev = "Gated" -> JGated(Line, regst)
+    [] Line.ev = "Scale" -> JScale(Line)
+    [] Line.ev = "Repeat" -> JRepeat(Line)
     [] Line.ev = "Walk" -> JWalk(Line, objin)
     [] Line.ev = "Recheck" -> JRecheck(Line)
     [] Line.ev = "Par" -> JPar(Line)
@@ -92,6 +94,8 @@ ScenarioProps(v) ==
   IF v \cap {"dec_val", "dec_n", "dec_accept", "enc_bytes", "enc_ok", "size_exact", "size_ok", "enc_n"} # {} /\
      cur.prop \in {"C09", "C10", "C11", "C12", "C14"}
   THEN {cur.prop}
+  ELSE IF cur.prop \in {"C03", "C09", "C10", "C11"} /\ v \cap {"recheck_stable", "mem_crash"} # {}
+  THEN {cur.prop}    \* a decoded value that changes under garbage collection was not decoded properly
   ELSE IF cur.prop = "C12" /\ v \cap {"nocopy_exact", "nocopy_follows", "walk_noinput"} # {}
   THEN {"C12"}       \* C12: the nocopy option takes effect under every spelling of the tag
   ELSE IF cur.prop = "C16" /\ v \cap {"enc_bytes", "enc_ok", "enc_n"} # {}
